@@ -339,6 +339,10 @@ class ConventionalResponseHandler(MessageHandler, ResponseHandler):
             raise transport_errors.SmartProtocolError(
                 f"Unknown response status: {byte!r}"
             )
+        if self.args is not None:
+            # A status byte after the args is a body stream status, even if
+            # the stream failed before sending its first bytes part.
+            self._body_started = True
         if self._body_started:
             if self._body_stream_status is not None:
                 raise transport_errors.SmartProtocolError(
